@@ -198,6 +198,7 @@ class Interp:
         self.var_perturb = {}  # variable label count -> list of (jet var index, component tuple)
         self.term_perturb = {}  # terminal repr -> list of (jet var index, component tuple)  (diff w.r.t. coefficient)
         self.subst = {}  # terminal repr -> Expr: evaluate this terminal as the value of its image (C21)
+        self.subst_simultaneous = False  # images are evaluated without substitution (C21: replace is simultaneous)
         self.alias = {}  # repr of a renumbered form argument -> the original one (same field, FormData replace map)
         self.continuous = None  # callable(form argument) -> bool (two-sided poly mode: physical polynomial shared by sides)
         self.flags = set()
@@ -251,6 +252,15 @@ class Interp:
 
     def env(self, side):
         return self.envs[side]
+
+    def image_val(self, img, side):
+        """value of the image of a substituted terminal"""
+        if not self.subst_simultaneous:
+            return self.val(img, side)
+        if self._clean is None:
+            self._clean = Interp(self.envs, self.js.N, self.js.n - self.tdim)
+            self._clean.continuous = self.continuous
+        return self._clean.val(img, side)
 
     def const(self, v):
         return self.js.const(np.asarray(v))
@@ -395,7 +405,7 @@ class Interp:
         env = self.env(s)
         rep = repr(e)
         if rep in self.subst:
-            return self.val(self.subst[rep], s)
+            return self.image_val(self.subst[rep], s)
         out = self.const(env.x)
         if self.js.N >= 1:
             for k in range(self.tdim):
@@ -414,7 +424,7 @@ class Interp:
     def ev_Constant(self, e, s):
         rep = repr(e)
         if rep in self.subst:
-            return self.val(self.subst[rep], s)
+            return self.image_val(self.subst[rep], s)
         v = self.const(self.env(None).rand("const:" + rep, e.ufl_shape))
         return self._apply_perturbations(e, rep, v, s)
 
@@ -510,7 +520,7 @@ class Interp:
         e = self.alias.get(repr(e), e)
         rep = repr(e)
         if rep in self.subst:
-            return self.val(self.subst[rep], s)
+            return self.image_val(self.subst[rep], s)
         env = self.env(s)
         if env.mode == "atoms":
             v = self.atom(e, s)
@@ -570,7 +580,7 @@ class Interp:
         env = self.env(s)
         rep = repr(o)
         if not parts and rep in self.subst:
-            return self.val(self.subst[rep], s)
+            return self.image_val(self.subst[rep], s)
         side_dep = True
         if self.continuous is not None and not parts:
             side_dep = not self.continuous(o)
